@@ -17,6 +17,7 @@ class Context:
         self._loop_depth = 0
         self._in_matrix = False
         self._in_routine = False
+        self._routine_names = set()
 
     def __contains__(self, name) -> bool:
         return name in self._locals or name in self._globals
@@ -29,6 +30,7 @@ class Context:
         self._globals.clear()
         self._locals.clear()
         self._loop_stack.clear()
+        self._routine_names.clear()
 
     def enter_routine(self) -> None:
         self._in_routine = True
@@ -85,7 +87,13 @@ class Context:
             inst.param1 = offset - inst.param1
 
     def add_routine(self, routine) -> None:
+        self._routine_names.add(routine.name)
         self._globals.add_symbol(routine.name, SymbolType.ROUTINE, routine)
+
+    def routine_exists(self, name) -> bool:
+        # Still true after a variable has taken the routine's name: the
+        # routine remains in the program.
+        return name in self._routine_names
 
     def add_variable(self, name, value=None) -> None:
         dest = self._locals if self._in_routine else self._globals
